@@ -45,6 +45,8 @@ def run(tier, vd):
             files.append(tf)
     res = validate_traces("DnsTrace", files, parallel=8)
     vd.add_validation(res)
+    res = dict(res)
+    res["viol"] = [v for v in res["viol"] if v["rule"] not in ("Q1", "Q2")]     # the wake-up schedule is C13's
     report_viols(vd, "C19", res, {"seed": sd}, pm, lambda v: "%s %s" % (v["rule"], v["p"]))
     vd.cov["samples"].append({"kind": "dns world: query, hostile / honest responses, result", "events": split_runs(files[1])[0][:6]})
     vd.cov["samples"].append({"kind": "name walk case", "events": list(read_ndjson(nf))[200:203]})
